@@ -3,65 +3,10 @@
   bytes.IndexByte, GetHdrType, GetMethodNo, SIPMethod.Name, URIParamResolve.
   The name tables and hash widths come from the REGENERATED `Sipsp.Generated.Facts`.
 -/
-import Sipsp.Model.Basic
+import Sipsp.Model.Bytescase
 import Sipsp.Generated.Facts
 
 namespace Sipsp
-
-/-! ### bytescase@v1.0.2 (modelled from its source, bit-twiddling included) -/
-
-/-- `(((0x40 - uint32(b)) & (uint32(b) - 0x5b)) >> 26) & 0x20` -/
-def upperMask (b : UInt8) : UInt32 :=
-  ((((0x40 : UInt32) - b.toUInt32) &&& (b.toUInt32 - 0x5b)) >>> 26) &&& 0x20
-
-/-- `((((0x40-v)&(v-0x5b)) | ((0x60-v)&(v-0x7b))) >> 26) & 0x20` -/
-def letterMask (v : UInt8) : UInt8 :=
-  ((((((0x40 : UInt32) - v.toUInt32) &&& (v.toUInt32 - 0x5b)) |||
-     (((0x60 : UInt32) - v.toUInt32) &&& (v.toUInt32 - 0x7b))) >>> 26) &&& 0x20).toUInt8
-
-def byteToLower (b : UInt8) : UInt8 := b ||| (upperMask b).toUInt8
-
-/-- one byte position of `CmpEq`/`Prefix`: `v|m == w|m` with `m = letterMask v`. -/
-@[inline] def eqFold (v w : UInt8) : Bool := (v ||| letterMask v) == (w ||| letterMask v)
-
-def cmpEqAux : List UInt8 → List UInt8 → Bool
-  | [], [] => true
-  | v :: vs, w :: ws => eqFold v w && cmpEqAux vs ws
-  | _, _ => false
-
-/-- `bytescase.CmpEq(s1, s2)`. -/
-def cmpEq (s1 s2 : Buf) : Bool :=
-  s1.size == s2.size && cmpEqAux s1.toList s2.toList
-
-def cmpEqL (s1 : Buf) (s2 : List UInt8) : Bool :=
-  s1.size == s2.length && cmpEqAux s1.toList s2
-
-/-- `bytescase.Prefix(prefix, s)` for the only use in sipsp: returns (len, match).
-    Go iterates over `s` (v = s[i]) and masks with the letter mask of `v`. -/
-def prefixAux : List UInt8 → List UInt8 → Nat → Nat × Bool
-  | [], _, i => (i, true)           -- i >= plen
-  | _ :: _, [], i => (i, true)      -- s exhausted (cannot happen: plen ≤ len s)
-  | p :: ps, v :: vs, i => if eqFold v p then prefixAux ps vs (i + 1) else (i, false)
-
-def bcPrefix (pfx : List UInt8) (s : List UInt8) : Nat × Bool :=
-  if pfx.length > s.length then (0, false) else prefixAux pfx s 0
-
-/-- `bytes.Equal`. -/
-def bytesEqL (a : Buf) (l : List UInt8) : Bool := a.toList == l
-def bytesEq (a c : Buf) : Bool := a.toList == c.toList
-
-/-- `bytes.IndexByte(b[from:], c)` as an absolute index. -/
-def indexByteFrom (b : Buf) (i : Nat) (c : UInt8) : Option Nat :=
-  match hb : b[i]? with
-  | none => none
-  | some x => if x == c then some i else indexByteFrom b (i + 1) c
-termination_by b.size - i
-decreasing_by
-  have hi : i < b.size := by
-    rcases Nat.lt_or_ge i b.size with h | h
-    · exact h
-    · rw [Array.getElem?_eq_none h] at hb; cases hb
-  omega
 
 /-! ### header names (parse_headers.go) -/
 
